@@ -484,8 +484,8 @@ fn gen_tables(r: &mut Rng, dist: &str) -> Vec<TableD> {
     let dom = match dist {
         "dense" => 3,
         "large" => r.range(5, 9),
-        "skewed" => r.range(3, 6),
-        _ => r.range(2, 6),
+        "skewed" => r.range(3, 5),
+        _ => r.range(2, 4),
     } as u32;
     let empty_ix = if dist == "empty" { r.below(nrel) } else { usize::MAX };
     for ti in 0..nrel {
@@ -622,13 +622,22 @@ fn gen_case(r: &mut Rng, force_shape: Option<&str>, force_dist: Option<&str>) ->
             args[s] = Some(Arg::Var(*v));
         }
         let random_shape = core.is_empty();
+        // literals mostly taken from the data of that column, so that they select something
+        let pick_const = |r: &mut Rng, c: usize| -> u32 {
+            let rows = &tables[table].rows;
+            if !rows.is_empty() && r.chance(4, 5) {
+                rows[r.below(rows.len())][c]
+            } else {
+                r.below(dom) as u32
+            }
+        };
         for s in slots {
             let k = r.below(100);
             args[s] = Some(if random_shape {
                 if k < 80 {
                     Arg::Var(r.below(nvars))
                 } else {
-                    Arg::Const(r.below(dom) as u32)
+                    Arg::Const(pick_const(r, s))
                 }
             } else if k < 55 {
                 nvars += 1;
@@ -636,7 +645,7 @@ fn gen_case(r: &mut Rng, force_shape: Option<&str>, force_dist: Option<&str>) ->
             } else if k < 80 {
                 Arg::Var(r.below(nvars))
             } else {
-                Arg::Const(r.below(dom) as u32)
+                Arg::Const(pick_const(r, s))
             });
         }
         let mut cs = Vec::new();
@@ -644,7 +653,7 @@ fn gen_case(r: &mut Rng, force_shape: Option<&str>, force_dist: Option<&str>) ->
         let has_var = args.iter().any(|a| matches!(a, Some(Arg::Var(_))));
         if has_var && r.chance(1, 4) {
             let c = if tables[table].sorted && r.chance(2, 3) { arity - 1 } else { r.below(arity) };
-            let k = r.below(dom + 1) as u32;
+            let k = if r.chance(1, 2) { pick_const(r, c) } else { r.below(dom + 1) as u32 };
             cs.push(match r.below(5) {
                 0 => Cs::EqConst(c, k),
                 1 => Cs::LtConst(c, k),
@@ -1038,6 +1047,7 @@ pub fn run(o: &Opts) -> i32 {
     let mut api_only: Vec<J> = Vec::new();
     let mut api_only_count = 0usize;
     let mut api_only_probe = J::Null;
+    let mut api_only_probe2 = J::Null;
     let mut api_full = |case: &Case, idx: usize, st: &mut Stats, w: &mut CaseWriter, viols: &mut Vec<Viol>, only: Option<(Strat, bool, usize)>| {
         let mut budget = 4_000_000u64;
         let Some(want) = reference(case, &mut budget) else {
@@ -1065,11 +1075,14 @@ pub fn run(o: &Opts) -> i32 {
                 let varfree = case.atoms.iter().any(|a| a.args.iter().all(|g| matches!(g, Arg::Const(_))));
                 for (ci, (s, nd)) in configs.iter().enumerate() {
                     let threads = if (idx + ci) % 5 == 0 { 4 } else { 1 };
-                    let in_scope = match s {
-                        Strat::Gj => true,
-                        Strat::MinCover => case.atoms.len() <= 2 && !varfree,
-                        Strat::PureSize => false,
-                    };
+                    // every atom the language produces carries a variable (at least its timestamp
+                    // column), so variable-free atoms are reachable through the API only
+                    let in_scope = !varfree
+                        && match s {
+                            Strat::Gj => true,
+                            Strat::MinCover => case.atoms.len() <= 2,
+                            Strat::PureSize => false,
+                        };
                     if let Some(v) = api_case(case, *s, *nd, threads, &want, st, w, &mut seen_plans, ci == idx % configs.len()) {
                         if in_scope {
                             viols.push(v);
@@ -1198,7 +1211,27 @@ pub fn run(o: &Opts) -> i32 {
                 }
             }
         }
-        let n_api = if o.thorough { 2400 } else { 260 };
+        // second API-only probe: tree decomposition puts an atom without variables in no bag, so
+        // its header (here: the literal 0, absent from the table) is never applied
+        {
+            let at = |g: Arg| AtomD { table: 0, args: vec![g], cs: vec![] };
+            let probe = Case {
+                tables: vec![TableD { arity: 1, n_keys: 1, sorted: false, rows: vec![vec![1], vec![2]] }],
+                atoms: vec![at(Arg::Var(0)), at(Arg::Const(0)), at(Arg::Var(0)), at(Arg::Const(0)), at(Arg::Var(1))],
+                nvars: 2,
+                out: vec![1],
+                shape: "probe".into(),
+                dist: "probe".into(),
+            };
+            let mut b = 1000u64;
+            let want = reference(&probe, &mut b).unwrap();
+            if let Ok(got) = run_engine(&probe, Strat::Gj, false, 1) {
+                if got.rows != want {
+                    api_only_probe2 = json!({"what": "variable-free atom dropped by tree decomposition (it belongs to no bag, its header is never applied); with no_decomp the same rule does not fire (API-only)", "input": probe.json(), "engine_rows": got.rows.iter().collect::<Vec<_>>(), "matches": want.iter().collect::<Vec<_>>()});
+                }
+            }
+        }
+        let n_api = if o.thorough { 2400 } else { 384 };
         for i in 0..n_api {
             let mut r = Rng::for_case(o.seed, i as u64);
             // cycle through shapes x distributions so every combination is hit
@@ -1250,6 +1283,7 @@ pub fn run(o: &Opts) -> i32 {
             "api_only_config_disagreements": api_only_count,
             "api_only_config_samples": api_only,
             "api_only_probe_varfree_atom_slow_constraint": api_only_probe,
+            "api_only_probe_varfree_atom_dropped_by_decomposition": api_only_probe2,
         },
     });
     std::fs::write(o.out.join("impl_report.json"), serde_json::to_string(&report).unwrap()).unwrap();
